@@ -20,6 +20,13 @@
 (*   "shared"  ONE memo for all kinds ("hostname-valid => SRV-valid =>        *)
 (*             domain-valid", so a hit in a stricter validator's memo is fine *)
 (*             for a more lenient one - but the lenient ones write it too);   *)
+(*   "convfold" ONE cache, for all kinds, of the idna.ToASCII form of the last  *)
+(*             successfully converted name, keyed by the lower-cased / folded  *)
+(*             name ("domain names are case-insensitive"): the next name in    *)
+(*             the same fold class is judged on the FIRST spelling's ASCII     *)
+(*             form - but "XN--0" is a plain label and "xn--0" broken          *)
+(*             punycode, and 60 x "i" is a label while 60 x U+0130 (which      *)
+(*             strings.ToLower maps to i) converts to a 66-byte xn-- label;    *)
 (*   "unsync"  one memo per kind made of two words, key and verdict (also     *)
 (*             rejections are remembered), written and read in separate       *)
 (*             steps without synchronisation.                                 *)
@@ -33,7 +40,9 @@
 (*                  Grammar(k, n), whatever happened before or meanwhile      *)
 (* TLC proves it for "none" and "exact" and must refute it for "fold" (host   *)
 (* on the 63-byte k-label, then host on its Kelvin look-alike), "shared" (dom *)
-(* then srv on "_x_.a": one process, two calls) and "unsync" (two processes). *)
+(* then srv on "_x_.a": one process, two calls), "convfold" (host on          *)
+(* XN--0.<idn> then on xn--0.<idn>; the 60-byte i-label and its U+0130        *)
+(* spelling in either order) and "unsync" (two processes).                    *)
 (* The orchestrators run the last three expecting the violation; the harness  *)
 (* replays the refuting histories on the real functions: every input through  *)
 (* all validators strict->lenient and lenient->strict, fold look-alike pairs  *)
@@ -50,7 +59,9 @@ L(n) == Run("L", n)
 Dot == Run(".", 1)
 
 (* id -> [t: abstract ToASCII form, fold: fold class]                          *)
-InputIds == {"k63", "K63", "kelvin63", "k64", "srvish", "svc", "s253", "longs253"}
+InputIds == {"k63", "K63", "kelvin63", "k64", "srvish", "svc", "s253", "longs253",
+             "ACEup", "acelow", "i60", "doti60"}
+Idn == <<L(2), Run("-", 2), L(1), Run("D", 1), L(3)>>                            \* xn--p1ai, the ASCII form of a non-ASCII label
 Input(id) ==
     CASE id = "k63"      -> [t |-> <<L(63), Dot, L(1)>>, fold |-> 1]            \* kkk...k.a
       [] id = "K63"      -> [t |-> <<L(63), Dot, L(1)>>, fold |-> 1]            \* KKK...K.A : ASCII case flip
@@ -60,10 +71,15 @@ Input(id) ==
       [] id = "srvish"   -> [t |-> <<Run("_", 1), L(1), Run("_", 1), Dot, L(1)>>, fold |-> 3]   \* _x_.a : domain name only
       [] id = "svc"      -> [t |-> <<Run("_", 1), L(3), Dot, L(1)>>, fold |-> 4]               \* _tcp.a : SRV and domain
       [] id = "s253"     -> [t |-> <<L(63), Dot, L(63), Dot, L(63), Dot, L(61)>>, fold |-> 5]  \* 253 bytes with an s
+      [] id = "ACEup"    -> [t |-> <<L(2), Run("-", 2), Run("D", 1), Dot>> \o Idn, fold |-> 6]   \* XN--0.<idn>: a plain label
+      [] id = "acelow"   -> [t |-> <<>>, fold |-> 6]                                              \* xn--0.<idn>: ToASCII fails
+      [] id = "i60"      -> [t |-> <<L(60), Dot>> \o Idn, fold |-> 7]                             \* iii...i.<idn>
+      [] id = "doti60"   -> [t |-> <<L(2), Run("-", 2), L(62), Dot>> \o Idn, fold |-> 7]          \* 60 x U+0130: xn--bfaaa...a, 66 bytes
       [] id = "longs253" -> [t |-> <<L(63), Dot, L(63), Dot, L(63), Dot, L(2), Run("-", 2), L(60), Run("-", 1), L(3)>>, fold |-> 5]
                                                                                 \* one s -> U+017F: last label xn--..., 261 bytes
 
-Grammar(k, id) == LET v == Verdicts(Input(id).t, FALSE) IN
+ToASCIIFails(id) == id = "acelow"
+Grammar(k, id) == LET v == Verdicts(Input(id).t, ToASCIIFails(id)) IN
                   CASE k = "host" -> v.host [] k = "ishost" -> v.host [] k = "srv" -> v.srv [] k = "dom" -> v.dom
 
 VARIABLES memo,   \* memo[slot]: [valid, key, ok]; slot = kind, or "all" for the shared design
@@ -74,7 +90,7 @@ VARIABLES memo,   \* memo[slot]: [valid, key, ok]; slot = kind, or "all" for the
 svars == <<memo, pc, cur, done, calls>>
 
 Slots == Kinds \cup {"all"}
-Slot(k) == IF Design = "shared" THEN "all" ELSE k
+Slot(k) == IF Design \in {"shared", "convfold"} THEN "all" ELSE k
 NoMemo == [valid |-> FALSE, key |-> "k63", ok |-> FALSE]
 
 Init == /\ memo = [s \in Slots |-> NoMemo]
@@ -83,19 +99,25 @@ Init == /\ memo = [s \in Slots |-> NoMemo]
         /\ done = {}
         /\ calls = [p \in Procs |-> 0]
 
-SameKey(a, b) == IF Design = "fold" THEN Input(a).fold = Input(b).fold ELSE a = b
+SameKey(a, b) == IF Design \in {"fold", "convfold"} THEN Input(a).fold = Input(b).fold ELSE a = b
 Hit(k, n) == memo[Slot(k)].valid /\ SameKey(memo[Slot(k)].key, n)
 
 Completed(k, n, res) == done' = done \cup {[k |-> k, n |-> n, res |-> res]}
 
 (* One atomic call (a lock or an atomic pointer makes it so): all designs but "unsync". *)
 AtomicCall(p) ==
-    /\ Design \in {"none", "exact", "fold", "shared"}
+    /\ Design \in {"none", "exact", "fold", "shared", "convfold"}
     /\ pc[p] = "idle" /\ calls[p] < MaxCalls
     /\ calls' = [calls EXCEPT ![p] = @ + 1]
     /\ \E k \in Kinds, n \in Inputs :
          IF Design = "none" THEN
               Completed(k, n, Grammar(k, n)) /\ UNCHANGED memo
+         ELSE IF Design = "convfold" THEN
+              \* the cached ASCII form of the first spelling is what gets validated
+              IF Hit(k, n) THEN Completed(k, n, Grammar(k, memo["all"].key)) /\ UNCHANGED memo
+              ELSE /\ Completed(k, n, Grammar(k, n))
+                   /\ memo' = IF ToASCIIFails(n) THEN memo
+                              ELSE [memo EXCEPT !["all"] = [valid |-> TRUE, key |-> n, ok |-> TRUE]]
          ELSE IF Hit(k, n) THEN
               Completed(k, n, TRUE) /\ UNCHANGED memo           \* only accepted names are remembered
          ELSE /\ Completed(k, n, Grammar(k, n))
@@ -137,8 +159,10 @@ InputsAsIntended ==
     /\ ~Grammar("dom", "k64")
     /\ Grammar("dom", "srvish") /\ ~Grammar("srv", "srvish") /\ ~Grammar("host", "srvish")
     /\ Grammar("srv", "svc") /\ Grammar("dom", "svc") /\ ~Grammar("host", "svc")
+    /\ Grammar("host", "ACEup") /\ ~Grammar("dom", "acelow")
+    /\ Grammar("host", "i60") /\ ~Grammar("dom", "doti60")
     /\ ByteLen(Input("s253").t) = 253 /\ Grammar("host", "s253") /\ ~Grammar("dom", "longs253")
 
 AllKinds == {"host", "srv", "dom", "ishost"}
-ASSUME Design \in {"none", "exact", "fold", "shared", "unsync"}
+ASSUME Design \in {"none", "exact", "fold", "shared", "convfold", "unsync"}
 =============================================================================
